@@ -66,17 +66,54 @@ def strip_comments(src):
     return "".join(out)
 
 
-def lean_build():
-    """lake build under a file lock; returns (ok, log)"""
-    lock = open(os.path.join(LEAN_DIR, ".build.lock"), "w")
-    fcntl.flock(lock, fcntl.LOCK_EX)
-    try:
-        p = subprocess.run(["lake", "build", "PyTreesModel", "PyTreesProofs", "driver"], cwd=LEAN_DIR,
+def lean_build(pid):
+    """regenerate PyTreesGen/<pid>.lean from $VERIF_REPO, then lake build the models, the driver and the modules of THIS
+    property (Props/<pid>*.lean with what they import). Caller holds the build lock.
+    Returns (ok, log, translation problems)."""
+    import py2lean
+    problems = py2lean.regenerate(common.REPO, LEAN_DIR, pid)
+    p = subprocess.run(["lake", "build", "PyTreesModel", "driver"], cwd=LEAN_DIR,
+                       stdout=subprocess.PIPE, stderr=subprocess.STDOUT, timeout=3000)
+    log = p.stdout.decode(errors="replace")
+    ok = p.returncode == 0
+    mods = ["PyTreesProofs.Props.%s" % m for m, _ in prop_modules(pid)]
+    if ok and mods:
+        p = subprocess.run(["lake", "build"] + mods, cwd=LEAN_DIR,
                            stdout=subprocess.PIPE, stderr=subprocess.STDOUT, timeout=3000)
-        return p.returncode == 0, p.stdout.decode(errors="replace")
-    finally:
-        fcntl.flock(lock, fcntl.LOCK_UN)
-        lock.close()
+        log += p.stdout.decode(errors="replace")
+        ok = p.returncode == 0
+    return ok, log, problems
+
+
+class BuildLock(object):
+    """serialises regenerate + build + audit between concurrently running checks"""
+    def __enter__(self):
+        self.f = open(os.path.join(LEAN_DIR, ".build.lock"), "w")
+        fcntl.flock(self.f, fcntl.LOCK_EX)
+        return self
+
+    def __exit__(self, *a):
+        fcntl.flock(self.f, fcntl.LOCK_UN)
+        self.f.close()
+
+
+def failing_theorems(log):
+    """names of the theorems in whose proofs `lake build` reported errors (from the error positions)"""
+    out = []
+    for m in re.finditer(r"error: (PyTrees\w+/[\w/]+\.lean):(\d+):", log):
+        path, line = os.path.join(LEAN_DIR, m.group(1)), int(m.group(2))
+        try:
+            src = open(path).read().split("\n")
+        except OSError:
+            continue
+        for i in range(min(line, len(src)) - 1, -1, -1):
+            mm = re.match(r"\s*(?:private\s+)?(?:theorem|lemma|def|example|instance)\s+([A-Za-z0-9_.']+)?", src[i])
+            if mm:
+                name = "%s:%s" % (os.path.basename(path), mm.group(1) or "example@%d" % (i + 1))
+                if name not in out:
+                    out.append(name)
+                break
+    return out
 
 
 def prop_modules(pid):
@@ -211,25 +248,29 @@ def run(pid, tier, seed, args, sw):
     axioms = {}
     build_ok, build_log = True, ""
     if not args.no_lean:
-        build_ok, build_log = lean_build()
-        if not build_ok:
-            proof_problems.append({"kind": "build", "detail": build_log[-3000:]})
-        hits = forbidden_hits()
-        if hits:
-            proof_problems.append({"kind": "forbidden-token", "detail": hits[:20]})
-        if build_ok:
-            axioms = audit_axioms(pid, names)
-            for n, ax in axioms.items():
-                if ax is None:
-                    proof_problems.append({"kind": "theorem-missing", "theorem": n})
-                elif not set(ax) <= ALLOWED_AXIOMS:
-                    proof_problems.append({"kind": "axiom", "theorem": n, "axioms": ax})
-        if not names:
-            proof_problems.append({"kind": "no-theorems", "detail": ppath})
-        if tier == "thorough" and build_ok:
-            ok, log = leanchecker(pid)
-            if not ok:
-                proof_problems.append({"kind": "leanchecker", "detail": log})
+        with BuildLock():
+            build_ok, build_log, tproblems = lean_build(pid)
+            for tp in tproblems:
+                proof_problems.append({"kind": "translation", "detail": tp})
+            if not build_ok:
+                ft = failing_theorems(build_log)
+                proof_problems.append({"kind": "build", "theorem": ", ".join(ft) or None, "detail": build_log[-3000:]})
+            hits = forbidden_hits()
+            if hits:
+                proof_problems.append({"kind": "forbidden-token", "detail": hits[:20]})
+            if build_ok:
+                axioms = audit_axioms(pid, names)
+                for n, ax in axioms.items():
+                    if ax is None:
+                        proof_problems.append({"kind": "theorem-missing", "theorem": n})
+                    elif not set(ax) <= ALLOWED_AXIOMS:
+                        proof_problems.append({"kind": "axiom", "theorem": n, "axioms": ax})
+            if not names:
+                proof_problems.append({"kind": "no-theorems", "detail": ppath})
+            if tier == "thorough" and build_ok:
+                ok, log = leanchecker(pid)
+                if not ok:
+                    proof_problems.append({"kind": "leanchecker", "detail": log})
     if not os.path.exists(common.DRIVER):
         raise Infra("model driver could not be built:\n" + build_log[-2000:])
     discharged = [n for n in names if axioms.get(n) is not None and set(axioms[n]) <= ALLOWED_AXIOMS]
@@ -336,7 +377,9 @@ def run(pid, tier, seed, args, sw):
         rc = 1
     elif proof_problems:
         path = write_replay(pid, tier, seed, nrep, {
-            "kind": "proof", "theorem": proof_problems[0].get("theorem"), "problems": proof_problems,
+            "kind": "proof", "theorem": next((q.get("theorem") or q.get("detail") for q in proof_problems
+                                              if q.get("theorem") or q.get("kind") == "translation"), None),
+            "problems": proof_problems,
             "searched_for_failing_input": searched, "scenario": None})
         print("VIOLATION property=%s replay=%s no-failing-input-found" % (pid, path))
         rc = 1
